@@ -230,7 +230,7 @@ func (r *Reader) traverseNode(n *html.Node, ctx *parseContext) {
 			}
 			return
 
-		case "ul", "ol":
+		case "ul", "ol", "menu":
 			// Flush previous list if different type or top-level
 			if ctx.inList && ctx.listLevel == 0 && len(ctx.listItems) > 0 {
 				r.elements = append(r.elements, parsedElement{
@@ -287,7 +287,7 @@ func (r *Reader) traverseNode(n *html.Node, ctx *parseContext) {
 				// Check for nested lists
 				ctx.listLevel++
 				for c := n.FirstChild; c != nil; c = c.NextSibling {
-					if c.Type == html.ElementNode && (c.Data == "ul" || c.Data == "ol") {
+					if c.Type == html.ElementNode && isListContainer(c.Data) {
 						r.traverseNode(c, ctx)
 					}
 				}
@@ -437,7 +437,7 @@ func (r *Reader) traverseNodeFiltered(n *html.Node, ctx *parseContext, elements 
 			}
 			return
 
-		case "ul", "ol":
+		case "ul", "ol", "menu":
 			// Flush previous list if different type or top-level
 			if ctx.inList && ctx.listLevel == 0 && len(ctx.listItems) > 0 {
 				*elements = append(*elements, parsedElement{
@@ -494,7 +494,7 @@ func (r *Reader) traverseNodeFiltered(n *html.Node, ctx *parseContext, elements 
 				// Check for nested lists
 				ctx.listLevel++
 				for c := n.FirstChild; c != nil; c = c.NextSibling {
-					if c.Type == html.ElementNode && (c.Data == "ul" || c.Data == "ol") {
+					if c.Type == html.ElementNode && isListContainer(c.Data) {
 						r.traverseNodeFiltered(c, ctx, elements)
 					}
 				}
@@ -664,12 +664,23 @@ func shouldSkipElement(tagName string) bool {
 	return false
 }
 
+// isListContainer returns true for the elements whose <li> children form a
+// list: <ul>, <ol> and <menu> (HTML Standard 4.4.7: "the menu element is simply
+// a semantic alternative to ul"; it is rendered as an unordered list).
+func isListContainer(tagName string) bool {
+	switch tagName {
+	case "ul", "ol", "menu":
+		return true
+	}
+	return false
+}
+
 // isBlockContainer returns true if the element is a block container with block-level children.
 func isBlockContainer(n *html.Node) bool {
 	for c := n.FirstChild; c != nil; c = c.NextSibling {
 		if c.Type == html.ElementNode {
 			switch c.Data {
-			case "div", "p", "ul", "ol", "table", "h1", "h2", "h3", "h4", "h5", "h6", "blockquote", "pre",
+			case "div", "p", "ul", "ol", "menu", "table", "h1", "h2", "h3", "h4", "h5", "h6", "blockquote", "pre",
 				"article", "section", "main", "header", "footer", "nav", "aside":
 				return true
 			}
@@ -733,7 +744,7 @@ func getDirectTextContent(n *html.Node) string {
 		} else if c.Type == html.ElementNode {
 			// Include inline elements, skip block elements
 			switch c.Data {
-			case "ul", "ol":
+			case "ul", "ol", "menu":
 				// Nested lists become separate, deeper items
 			case "div", "p", "table", "blockquote":
 				// Block children belong to the item: keep their text, set off by spaces
